@@ -1050,6 +1050,11 @@ def lookahead_skips_comments(run, R="MATCH"):
     if g is None:
         return
     asks = [bi for bi, t in g.calls() if re.search(r"::(token_at|next_token|next_nth_token)$", t.get("resolved") or t.get("callee") or "")]
+    # ... or through a helper of the walker that asks the tokenizer for the token at a position
+    for bi, t in g.calls():
+        h = run.prog.fn(t.get("resolved") or "")
+        if h is not None and h.id != g.id and "syntax::walker::Walker" in h.id and any(re.search(r"::(token_at|next_token|next_nth_token)$", t2.get("resolved") or t2.get("callee") or "") for _, t2 in h.calls()):
+            asks.append(bi)
     kinds = set()
     for bi, t in g.calls():
         for a in t["args"]:
@@ -1114,7 +1119,7 @@ def matcher_candidate_order(run, R="GATE"):
             g = prog.fn(cid) if cid else None
             if g is None:
                 continue
-            txt = json.dumps(g.raw.get("blocks"))
+            txt = json.dumps(g.raw.get("blocks")) + "".join(json.dumps(x.raw.get("blocks")) for x in prog.real_fns() if x.kind == "Closure" and x.id.startswith(g.id + "::"))
             if '"ruledef_ref"' in txt and '"rule_ref"' in txt:
                 if "unstable" in c:
                     unstable.append(f.loc(t["span"]))
